@@ -170,6 +170,54 @@ def is_counter_exit(o, lp, sv):
     return bool(names) and names <= counters
 
 
+def syntactic_counters(loop: ast.While):
+    """Names the loop body changes only by adding / subtracting a numeric constant."""
+    writes = {}
+    for n in ast.walk(loop):
+        if isinstance(n, ast.AugAssign) and isinstance(n.target, ast.Name):
+            ok = isinstance(n.op, (ast.Add, ast.Sub)) and isinstance(n.value, ast.Constant) and isinstance(n.value.value, (int, float)) \
+                and not isinstance(n.value.value, bool)
+            writes.setdefault(n.target.id, []).append(ok)
+        elif isinstance(n, (ast.Assign, ast.AnnAssign, ast.NamedExpr, ast.For, ast.comprehension)):
+            tgts = n.targets if isinstance(n, ast.Assign) else [n.target]
+            for t in tgts:
+                for x in ast.walk(t):
+                    if isinstance(x, ast.Name) and isinstance(x.ctx, ast.Store):
+                        writes.setdefault(x.id, []).append(False)
+    return {nm for nm, oks in writes.items() if oks and all(oks)}
+
+
+def is_cap_exit_after_loop(o, lp, sv):
+    """`while <converging> and <budget left>: ...` followed directly by `if <converging>: raise`: the raise is the iteration
+    cap (it is reached only when the budget conjunct ended the loop), written after the loop instead of inside it."""
+    node = o.exc.node
+    loop = lp.node
+    if not (isinstance(node, ast.Raise) and isinstance(loop, ast.While) and getattr(node, "lineno", 0) > getattr(loop, "end_lineno", 10 ** 9)):
+        return False
+    if not (isinstance(loop.test, ast.BoolOp) and isinstance(loop.test.op, ast.And)):
+        return False
+    counters = syntactic_counters(loop)
+    for blk in ast.walk(sv.node):
+        for fld in ("body", "orelse", "finalbody"):
+            seq = getattr(blk, fld, None)
+            if not isinstance(seq, list) or loop not in seq:
+                continue
+            i = seq.index(loop)
+            nxt = seq[i + 1] if i + 1 < len(seq) else None
+            if not (isinstance(nxt, ast.If) and any(x is node for x in nxt.body)):
+                return False
+            same = [c for c in loop.test.values if ast.dump(c) == ast.dump(nxt.test)]
+            rest = [c for c in loop.test.values if ast.dump(c) != ast.dump(nxt.test)]
+            if len(same) != 1 or not rest:
+                return False
+            for c in rest:
+                names = {x.id for x in ast.walk(c) if isinstance(x, ast.Name)}
+                if not names or not names <= counters:
+                    return False
+            return True
+    return False
+
+
 def _counter_names(lp):
     # at the time of the raise the transfer of the counter may not have been recorded; recompute from the bound state
     out = set()
@@ -190,7 +238,7 @@ def check_solver_path(ck, repo, df, sv, o, given):
         ck.note("path with the fixed-point loop skipped (precision above the initial distance) is outside the domain; not judged")
         return
     if o.kind != "return":
-        if wl and is_counter_exit(o, wl[0], sv):
+        if wl and (is_counter_exit(o, wl[0], sv) or is_cap_exit_after_loop(o, wl[0], sv)):
             ck.note("path leaving the loop through its iteration cap (raise guarded by a pure counter) is the bounded-iteration "
                     "exit required by C10; not judged here")
             return
@@ -264,6 +312,15 @@ def check_solver_path(ck, repo, df, sv, o, given):
     okg = False
     gc = g.cond if isinstance(g, BoolV) else None
     neg = False
+    if isinstance(gc, tuple) and gc and gc[0] == "and":
+        # `while <distance test> and <iteration budget test>`: the other conjuncts may only involve pure counters
+        cnt = {"#w.%s" % nm for nm in pure_counters(lp)}
+
+        def only_counters(c):
+            names = {poly.T.get(i).name for i in poly.key_deps(c) if poly.T.get(i).kind == "sym"}
+            return bool(names) and names <= cnt
+        rest = [c for c in gc[1:] if not only_counters(c)]
+        gc = rest[0] if len(rest) == 1 else None
     while isinstance(gc, tuple) and len(gc) == 2 and gc[0] == "not":
         gc, neg = gc[1], not neg
     if isinstance(gc, tuple) and len(gc) == 3 and isinstance(gc[1], Rat):
